@@ -747,15 +747,15 @@ func (pc *PeerConnection) CreateOffer(options *OfferOptions) (SessionDescription
 					}
 				}
 			}
+			// learn every mid that is already taken before handing out new ones: a
+			// transceiver further down the list may carry a mid set by the application
 			for _, t := range currentTransceivers {
-				if mid := t.Mid(); mid != "" {
-					numericMid, errMid := strconv.Atoi(mid)
-					if errMid == nil {
-						if numericMid > pc.greaterMid {
-							pc.greaterMid = numericMid
-						}
-					}
-
+				if numericMid, errMid := strconv.Atoi(t.Mid()); errMid == nil && numericMid > pc.greaterMid {
+					pc.greaterMid = numericMid
+				}
+			}
+			for _, t := range currentTransceivers {
+				if t.Mid() != "" {
 					continue
 				}
 				pc.greaterMid++
